@@ -394,6 +394,12 @@ func (lb *LoadBalancer) processHealthCheckResponse(backend *Backend, resp *http.
 
 	// If we get here, the backend is healthy
 	backend.Mutex.Lock()
+	if !backend.IsHealthy && !time.Now().After(backend.UnhealthyUntil) {
+		// The backend was ejected while this probe was in flight: its unhealthy
+		// window is still running and must not be cut short by a stale probe.
+		backend.Mutex.Unlock()
+		return
+	}
 	wasUnhealthy := !backend.IsHealthy
 	backend.IsHealthy = true
 	backend.Mutex.Unlock()
